@@ -35,6 +35,20 @@ S = {
  "C18-a": ("C18", "codec/websocket/stream.go: incremental CRLFCRLF scan with 2 bytes of overlap", "a response whose segment boundary falls exactly 3 bytes into the final blank line (handshake hangs)", "C18 quick after adding cuts around the end of the response head and a handshake watchdog", "codec/websocket"),
  "C19-a": ("C19", "byte_buffer.go: WriteTo returns on a failed Write without consuming what earlier Writes of the same call sent", "blocking WriteNext on a non-blocking transport: short successful write(s) then would-block in the middle of an item, then the caller flushes", "C19 quick after adding the blocking-write would-block scenario; also C09 quick as built", "root package, codec/frame"),
  "C20-a": ("C20", "slot_sequencer.go: Push stores the raw slot instead of the offset-adjusted one", "push into a sequencer that has discarded a slot but not drained (offsetter not reset), then pop that push", "C20 quick (as built)", "root package"),
+ "C07-b": ("C07", "codec/websocket/frame.go: PayloadLength clears the top bit of a 64-bit length", "a 127-form frame whose 64-bit length has the top bit set and whose low 63 bits are within the maximum", "C07 quick (as built)", "codec/websocket"),
+ "C08-b": ("C08", "codec/websocket/stream.go: AsyncClose moves to ClosedByUs only when the Close frame's write completes", "AsyncClose whose transport write completes in a later cycle, with State()/writes/a second close observed meanwhile", "C08 quick after leaving AsyncClose in flight across other actions", "codec/websocket"),
+ "C09-b": ("C09", "byte_buffer.go: Consume fast path Resets the buffer when the read area is drained and the write area empty", "saved bytes outstanding while the whole read area is consumed with nothing uncommitted", "C09 quick (as built)", "root package"),
+ "C10-b": ("C10", "bip_buffer.go: Reset reimplemented through Consume(Committed())", "Reset on a wrapped buffer (two committed regions)", "C10 quick (as built)", "root package"),
+ "C11-b": ("C11", "bytes/util_linux.go: mmapAllocate over-reserves 2 MiB for huge-page sized rings and returns an aligned window; Destroy unmaps only the window", "a ring whose size is a multiple of 2 MiB, created and destroyed (mapping leak visible in /proc/self/maps)", "C11 quick after adding sizes that are multiples of 2 MiB", "bytes"),
+ "C12-b": ("C12", "socket.go: SendTo rebuilds the cached sockaddr only when the IP changes (port ignored)", "two consecutive UDPPeer writes to the same IP and different ports", "C12 quick after varying the write destination among several receivers on one address", "root package, multicast"),
+ "C13-b": ("C13", "internal/socket_unix.go: ConnectUDP does not close the socket when a socket option fails", "Dial of a udp network with an option that is rejected (or BindSocket conflict)", "C13 quick (as built)", "root package, internal"),
+ "C14-b": ("C14", "listen_conn.go: AsyncAccept's inline error completion is outside the Dispatched accounting", "a chain of accepts that fail immediately (EMFILE) and are re-armed from their callbacks", "C14 quick after adding chains of immediately failing operations (descriptor table full)", "root package"),
+ "C15-b": ("C15", "codec/websocket/frame_codec.go: the maximum size is only enforced when the payload is not yet wholly buffered", "an oversized frame that arrives completely inside what is already buffered", "C15 quick (as built)", "codec/websocket"),
+ "C16-b": ("C16", "codec/websocket/stream.go: asyncFlush pops the queue head by moving the last element into slot 0", "an asynchronous transport and at least three more frames queued while a write is in flight", "C16 quick after adding bursts of overlapping asynchronous writes (TestC16_Bursts); C17 quick as built", "codec/websocket"),
+ "C17-b": ("C17", "codec/websocket/stream.go: asyncFlush restores a queue snapshot taken before the transport write", "a frame queued (pong, close reply or application write) while another frame's write is in flight on the adapter", "C17 quick (as built); also C16 quick with TestC16_Bursts", "codec/websocket, root package"),
+ "C18-b": ("C18", "codec/websocket/stream.go: handshakeBuffer no longer emptied before the upgrade read loop", "a handshake that fails with an incomplete/unparsable head, then a second handshake on the same stream", "C18 quick (as built)", "codec/websocket"),
+ "C19-b": ("C19", "file.go: asyncWrite initialises the write reactor only on the inline path", "an asynchronous write issued at the dispatch limit (33rd of a chain started from completions) with a buffer different from the previous write's", "C19 quick after chaining writes and reads from their callbacks over a socket (34..120 items)", "root package, codec/frame"),
+ "C20-b": ("C20", "slot_offsetter.go: running byte counter instead of the Fenwick sum in Add", "a push refused by the slot container (duplicate or slot-count limit) followed by a successful push, then popping it before a drain", "C20 quick (as built)", "root package, util"),
 }
 for sid, (prop, change, needs, caught, suites) in S.items():
     d = os.path.join(V, "seeded", sid)
